@@ -270,6 +270,20 @@ def o_callbacks(ex, V):
         for ev in inv["trace"]:
             if ev[0] == "deliver" and isinstance(ev[2].get("ok"), str) and ev[2]["ok"].startswith("cb?"):
                 V("C14.callback_id_changed", {"inv": k, "pos": ev[1], "got": ev[2]["ok"]})
+    # result() / invoke() hand back exactly what the backend holds for the callback / chained invoke
+    kinds = {tuple(p): op for p, op in E.static_positions(ex["script"])}
+    for k, inv in enumerate(ex["invs"]):
+        held = {tuple(r["pos"]): r for r in inv["tbl"]}
+        for ev in inv["trace"]:
+            r = held.get(tuple(ev[1])) if ev[0] == "deliver" else None
+            if r is None or ev[2] == {"ok": "cb"} or kinds.get(tuple(ev[1])) not in ("cbnew", "invoke") or r["status"] not in TERMINAL:
+                continue
+            if r["status"] == "SUCCEEDED":
+                want = {"ok": "None" if r["result"] is None else r["result"]}
+                if ev[2] != want:
+                    V("C14.result_is_not_the_delivered_payload", {"inv": k, "pos": ev[1], "held_by_backend": r, "returned": ev[2]})
+            elif "err" not in ev[2]:
+                V("C14.failed_callback_or_invoke_returned_normally", {"inv": k, "pos": ev[1], "held_by_backend": r, "returned": ev[2]})
 
 
 @oracle("C17")
@@ -337,8 +351,8 @@ def o_large(ex, V):
                 er = inv.get("exec_result")
                 if not er or er.get("action") != "SUCCEED" or not er.get("payload"):
                     V("C16.large_result_not_recorded_before_empty_response", {"inv": k, "exec_result": er})
-            elif len(out.get("Result") or "") > rl:
-                V("C16.response_exceeds_limit", {"inv": k, "size": len(out["Result"]), "limit": rl})
+            elif len((out.get("Result") or "").encode("utf-8")) > rl:
+                V("C16.response_exceeds_limit", {"inv": k, "size_bytes": len(out["Result"].encode("utf-8")), "size_chars": len(out["Result"]), "limit": rl})
 
 
 @oracle("C16")
@@ -522,6 +536,15 @@ def extra(ctx, prop):
             script = [st for st in script if st["op"] != "raise"] + [{"op": "pad", "n": ctx.rng.choice([10, 60, 150, 400])}]
             one(ctx, script, ctx.rng.randrange(1 << 30), prop, component="engine.large_final", crash_p=0.0, fault_p=0.0,
                 limits={"ckpt_limit": 200, "resp_limit": ctx.rng.choice([100, 149, 150, 151, 1000])})
+        # the same with non-ASCII results (limits are byte limits); judged by the oracles only: the model's payloads are ASCII
+        for i in range(ctx.scale(40, 800)):
+            script = [st for st in E.gen_script(ctx.rng, focus="C16") if st["op"] not in ("raise", "pad")]
+            script = script[:4] + [{"op": "pad", "n": ctx.rng.choice([10, 40, 60, 150]), "ch": ctx.rng.choice(["€", "é", "日"])}]
+            ex = E.run_execution(script, ctx.rng.randrange(1 << 30), crash_p=0.0, fault_p=0.0,
+                                 limits={"ckpt_limit": 2000, "resp_limit": ctx.rng.choice([100, 150, 200])})
+            run_oracles(ctx, ex, "engine.large_final.nonascii", only_prop=prop)
+            ctx.case((json.dumps(script, sort_keys=True), json.dumps(ex["plans"], sort_keys=True)) if ex["finished"] else None)
+            ctx.count("large_final.nonascii")
     if prop == "C12":
         from harness import comp_strategy
         comp_strategy.run(ctx)
